@@ -40,6 +40,13 @@ func c14Mode(args []string) {
 	rng := rand.New(rand.NewSource(*seed))
 	sum := newSummary("c14")
 	distinct := map[string]bool{}
+	linkOff := func(name, opt string) *PolicySpec {
+		return &PolicySpec{Name: name, Ops: []Op{{Kind: "elements", Names: []string{"a", "area", "link", "base", "img", "q", "iframe", "source", "video"}},
+			{Kind: "attrs", Names: []string{"href", "src", "cite", "alt", "rel", "target"}, Scope: "G"}, {Kind: "schemes", Names: []string{"http", "https"}},
+			{Kind: opt, B: true}, {Kind: "parseable", B: false}}}
+	}
+	b1Policies := append(handPolicies(), linkOff("c14-nofollow-off", "nofollow"), linkOff("c14-nofollowfq-off", "nofollowfq"), linkOff("c14-noreferrer-off", "noreferrer"),
+		linkOff("c14-noreferrerfq-off", "noreferrerfq"), linkOff("c14-targetblank-off", "targetblank"))
 	// (a) adversarial size-parameterised families through the default CSS handlers
 	props := []string{"text-decoration", "text-decoration-line", "font-family", "font", "background", "border", "animation", "transition",
 		"grid-template-columns", "grid-template-rows", "background-position", "background-size", "box-shadow", "text-shadow", "flex-flow",
@@ -106,11 +113,12 @@ sweep:
 		}
 	}
 	// (b') every URL of the corpus at every src / href / cite position under every hand policy (rewriters, data URIs)
-	for _, ps := range handPolicies() {
+	// and under the link options with URL checking switched off again afterwards
+	for _, ps := range b1Policies {
 		gp := ps.buildGo()
 		for _, u := range urlCorpus(rng, 200) {
-			for _, el := range []string{"img", "iframe", "a", "q", "source", "video"} {
-				key := map[string]string{"a": "href", "q": "cite"}[el]
+			for _, el := range []string{"img", "iframe", "a", "q", "source", "video", "area", "link", "base"} {
+				key := map[string]string{"a": "href", "q": "cite", "area": "href", "link": "href", "base": "href"}[el]
 				if key == "" {
 					key = "src"
 				}
@@ -186,6 +194,8 @@ func c13Mode(args []string) {
 		ps.Ops = append(ps.Ops, Op{Kind: "attrs", Names: []string{"id"}, Scope: "M", ScopeRe: `^custom-`}, Op{Kind: "attrs", Names: []string{"class"}, Scope: "M", ScopeRe: `^[a-z]+-x$`},
 			Op{Kind: "styles", Names: []string{"color"}, Scope: "M", ScopeRe: `^custom-`}, Op{Kind: "styles", Names: []string{"width"}, Scope: "M", ScopeRe: `^[a-z]+-x$`},
 			Op{Kind: "elementsmatching", Re: `^(b|i)$`},
+			Op{Kind: "attrs", Names: []string{"id"}, Re: `^[a-z]+$`, Scope: "M", ScopeRe: `^custom-`}, Op{Kind: "attrs", Names: []string{"id"}, Re: `^[0-9]+$`, Scope: "M", ScopeRe: `^custom-`},
+			Op{Kind: "attrs", Names: []string{"id"}, Re: `^x`, Scope: "M", ScopeRe: `^[a-z]+-x$`},
 			Op{Kind: "styles", Names: []string{"float"}, Enum: []string{"left"}, Scope: "M", ScopeRe: `^custom-`}, Op{Kind: "styles", Names: []string{"float"}, Enum: []string{"right"}, Scope: "M", ScopeRe: `^[a-z]+-x$`},
 			Op{Kind: "attrs", Names: []string{"title"}, Scope: "M", ScopeRe: `^[a-z]+-x$`})
 		pols = append(pols, ps)
